@@ -194,6 +194,7 @@ class Engine:
         self.at_hits = set()
         self.feas_cache = {}
         self.keepalive = []
+        self.safe_terms = set()
         self.callees_by_contract = set()
         self.stats = {"stmts": 0, "dropped": 0}
         self.max_paths = 4000
